@@ -1,5 +1,6 @@
 import Driver.Proto
 import Driver.C20
+import Driver.C17
 open Driver
 
 def dispatch (line : String) : String :=
@@ -9,6 +10,7 @@ def dispatch (line : String) : String :=
     let kv := parseKV rest
     match prop with
     | "C20" => Driver.C20.handle kv
+    | "C17" => Driver.C17.handle kv
     | "#" => "NOTE " ++ " ".intercalate rest
     | _ => s!"ERR ? unknown-prop {prop}"
 
